@@ -1028,7 +1028,7 @@ def inline_fresh(fn, known_names: set, stored_attrs, dry: bool = False) -> bool:
             remaining = list(rs)
             for container, j, head in sites:
                 here = [r for r in remaining if any(x is r for x in ast.walk(head))]
-                if len(here) != 1 or _deferred(head, here[0]) or not (_evaluated_first(head, here[0]) or _movable_before(st.value, head, here[0], fn)):
+                if len(here) != 1 or _deferred(head, here[0]) or not (_evaluated_first(head, here[0]) or (_movable_before(st.value, head, here[0], fn) and (pure(st.value) or not _conditional(head, here[0])))):
                     ok = False
                     break
                 chosen.append((container, j, here[0]))
@@ -1496,6 +1496,15 @@ def inline_helpers(tree: ast.Module, known_paths: set, functions) -> int:
                             early = [x for x in ast.walk(head) if isinstance(x, ast.Call) and x is not c and not any(y is c for y in ast.walk(x)) and (x.end_lineno, x.end_col_offset) <= (c.lineno, c.col_offset)]
                             if not early and not isinstance(st, (ast.While,)):
                                 new = prologue + body[:-1] + [_replace_expr(st, c, body[-1].value)]
+                        if new is None and isinstance(st, ast.If) and not st.orelse and isinstance(st.test, ast.BoolOp) and isinstance(st.test.op, ast.And) \
+                                and st.test.values[-1] is c and _tail_returns_only(body) and _all_tails_return(body):
+                            # `if A and helper(): S`: the helper only runs when A holds - `if A: (if helper(): S)`, the inner test is handled next round
+                            rest_vals = st.test.values[:-1]
+                            inner = L(ast.If(test=c, body=st.body, orelse=[]), st)
+                            st.test = rest_vals[0] if len(rest_vals) == 1 else L(ast.BoolOp(op=ast.And(), values=rest_vals), st.test)
+                            st.body = [inner, L(ast.Pass(), st)]      # the `pass` keeps the shape step from merging the two ifs back before the inlining
+                            changed = True
+                            break
                         if new is None:
                             # the call sits inside a larger expression: give it a statement of its own first (when it is the
                             # first thing the statement evaluates), the next round inlines `tmp = helper(...)`
@@ -1525,6 +1534,11 @@ def inline_helpers(tree: ast.Module, known_paths: set, functions) -> int:
                     break
             if not changed:
                 break
+    for owner in ast.walk(tree):
+        for field in ("body", "orelse", "finalbody"):
+            stmts = getattr(owner, field, None)
+            if isinstance(stmts, list) and len(stmts) > 1 and any(isinstance(x, ast.Pass) for x in stmts):
+                stmts[:] = [x for x in stmts if not isinstance(x, ast.Pass)] or [stmts[0]]
     if n_inlined:
         # a helper that the reference does not know and that nothing refers to any more is dropped: what it did is now
         # analysed where it is done
@@ -2155,6 +2169,31 @@ def candidates2(fn, stored_attrs) -> List[Cand]:
                     call = L(ast.Call(func=L(ast.Attribute(value=st.test.comparators[0], attr="setdefault", ctx=ast.Load()), st), args=[st.test.left, st.body[0].value], keywords=[]), st)
                     stmts[i] = L(ast.Expr(value=call), st)
                 out.append(("setdefault-in", f))
+            # `for ..: if c: flag = True; break / else: flag = False` + `if flag: return X`  ->  `for ..: if c: return X`
+            if isinstance(st, ast.For) and len(st.orelse) == 1 and isinstance(st.orelse[0], ast.Assign) and len(st.orelse[0].targets) == 1 and isinstance(st.orelse[0].targets[0], ast.Name) \
+                    and isinstance(st.orelse[0].value, ast.Constant) and st.orelse[0].value.value is False and rest and isinstance(rest[0], ast.If) and not rest[0].orelse \
+                    and isinstance(rest[0].test, ast.Name) and rest[0].test.id == st.orelse[0].targets[0].id and len(rest[0].body) == 1 and isinstance(rest[0].body[0], (ast.Return, ast.Raise)):
+                flag = st.orelse[0].targets[0].id
+                sets = []
+                okf = True
+                for o2, f2, b2 in blocks(st):
+                    for j, x in enumerate(b2):
+                        if isinstance(x, ast.Break):
+                            prev = b2[j - 1] if j > 0 else None
+                            if isinstance(prev, ast.Assign) and len(prev.targets) == 1 and isinstance(prev.targets[0], ast.Name) and prev.targets[0].id == flag \
+                                    and isinstance(prev.value, ast.Constant) and prev.value.value is True:
+                                sets.append((b2, j))
+                            else:
+                                okf = False
+                n_flag = sum(1 for n in own_walk(fn) if isinstance(n, ast.Name) and n.id == flag)
+                inner_loops = any(isinstance(n, (ast.For, ast.While)) for b in st.body for n in ast.walk(b))
+                if okf and sets and n_flag == len(sets) + 2 and not inner_loops:
+                    def f(stmts=stmts, i=i, st=st, sets=sets, exit_stmt=rest[0].body[0]):
+                        for b2, j in sets:
+                            b2[j - 1:j + 1] = [copy.deepcopy(exit_stmt)]
+                        st.orelse = []
+                        del stmts[i + 1]
+                    out.append(("break-flag-return", f))
             # flag through try: `try: f = E except T: f = False` + `if f: <simple exit>`  ->  `try: if E: <simple exit> except T: pass`
             if isinstance(st, ast.Try) and len(st.body) == 1 and len(st.handlers) == 1 and not st.orelse and not st.finalbody and rest and isinstance(rest[0], ast.If) and not rest[0].orelse \
                     and isinstance(st.body[0], ast.Assign) and len(st.body[0].targets) == 1 and isinstance(st.body[0].targets[0], ast.Name) \
@@ -2292,6 +2331,20 @@ def candidates2(fn, stored_attrs) -> List[Cand]:
             def f(parent=parent, field=field, idx=idx, e=e):
                 _set(parent, field, idx, L(ast.ListComp(elt=e.elt, generators=e.generators), e))
             out.append(("gen-comp", f))
+        # F(A if c else B)  <->  F(A) if c else F(B)   (F a plain name / attribute: looking it up before or after c is the same)
+        if isinstance(e, ast.Call) and len(e.args) == 1 and not e.keywords and isinstance(e.args[0], ast.IfExp) and pure(e.func):
+            def f(parent=parent, field=field, idx=idx, e=e):
+                ie = e.args[0]
+                a = L(ast.Call(func=copy.deepcopy(e.func), args=[ie.body], keywords=[]), e)
+                b = L(ast.Call(func=e.func, args=[ie.orelse], keywords=[]), e)
+                _set(parent, field, idx, L(ast.IfExp(test=ie.test, body=a, orelse=b), e))
+            out.append(("ifexp-arg-out", f))
+        if isinstance(e, ast.IfExp) and isinstance(e.body, ast.Call) and isinstance(e.orelse, ast.Call) and ast.dump(e.body.func) == ast.dump(e.orelse.func) and pure(e.body.func) \
+                and len(e.body.args) == 1 and len(e.orelse.args) == 1 and not e.body.keywords and not e.orelse.keywords:
+            def f(parent=parent, field=field, idx=idx, e=e):
+                arg = L(ast.IfExp(test=e.test, body=e.body.args[0], orelse=e.orelse.args[0]), e)
+                _set(parent, field, idx, L(ast.Call(func=e.body.func, args=[arg], keywords=[]), e))
+            out.append(("ifexp-arg-in", f))
         # (A if c else B)(args)  <->  A(args) if c else B(args)
         if isinstance(e, ast.Call) and isinstance(e.func, ast.IfExp):
             def f(parent=parent, field=field, idx=idx, e=e):
@@ -2595,8 +2648,41 @@ def _pure_ctor_call(x) -> bool:
         and all(pure(a) or _pure_ctor_call(a) for a in x.args) and all(pure(k.value) for k in x.keywords)
 
 
+def _conditional(head, sub) -> bool:
+    """sub is only evaluated under a condition inside head: a later operand of and / or, a branch of a conditional expression."""
+    def rec(node, cond):
+        if node is sub:
+            return cond
+        if isinstance(node, ast.BoolOp):
+            for i, v in enumerate(node.values):
+                r = rec(v, cond or i > 0)
+                if r is not None:
+                    return r
+            return None
+        if isinstance(node, ast.IfExp):
+            for child, c in ((node.test, cond), (node.body, True), (node.orelse, True)):
+                r = rec(child, c)
+                if r is not None:
+                    return r
+            return None
+        if isinstance(node, ast.Compare) and len(node.ops) > 1:
+            for i, v in enumerate([node.left, *node.comparators]):
+                r = rec(v, cond or i > 1)
+                if r is not None:
+                    return r
+            return None
+        for child in ast.iter_child_nodes(node):
+            r = rec(child, cond)
+            if r is not None:
+                return r
+        return None
+    return bool(rec(head, False))
+
+
 def _evaluated_first(head, sub) -> bool:
-    """nothing with an effect is evaluated in head before sub."""
+    """nothing with an effect is evaluated in head before sub, and sub is evaluated whenever head is."""
+    if _conditional(head, sub):
+        return False
     inside = {id(x) for x in ast.walk(sub)}
     for x in eval_seq(head):
         if id(x) in inside:
